@@ -1,5 +1,341 @@
 package main
 
-// Storage / file stubs (filled in by later phases).
+// Environment stubs: files (line-structured, append-only), bufio.Scanner, fslock, LevelDB.
+// Contracts (each is part of the claim of the checks that use it):
+//  * file = sequence of lines; fmt.Fprintln(file, s) appends one line atomically (O_APPEND single write); each append is
+//    one durable effect;
+//  * bufio.Scanner.Scan (Go doc + bufio/scan.go): returns lines in order until EOF or until the first line whose length
+//    plus the newline does not fit the maximum token size (64 KiB unless Buffer was called) - then it stops with ErrTooLong;
+//  * fslock.Lock/Unlock = mutex shared by all handles created with the same path;
+//  * leveldb.DB = atomic key -> bytes map per path; Get of a missing key returns leveldb.ErrNotFound; the content
+//    persists for the whole path (i.e. across a simulated restart); each Put/Delete is one durable effect.
 
-func registerIO(P *Program) {}
+import (
+	"fmt"
+	"go/types"
+
+	"golang.org/x/tools/go/ssa"
+)
+
+type fileLine struct {
+	content SliceV
+	length  *Term // Int
+}
+
+type fileObj struct {
+	name  string
+	lines []*fileLine
+}
+
+type fileHandle struct {
+	f      *fileObj
+	pos    int
+	closed bool
+}
+
+type scannerObj struct {
+	h      *fileHandle
+	maxTok int64
+	cur    *fileLine
+	err    Value
+	done   bool
+}
+
+type dbObj struct {
+	path string
+	m    *MapV
+}
+
+const bufioMaxScanTokenSize = 64 * 1024
+
+func (in *Interp) effect(what string) {
+	// durable effect counter (crash points are implemented by the scheduler in sched.go)
+	n, _ := in.hooks["effects"].(int)
+	n++
+	in.hooks["effects"] = n
+	if lim, ok := in.hooks["crash_after"].(int); ok && lim > 0 && n == lim {
+		in.hooks["crash_after"] = 0
+		panic(&goPanic{msg: "vf: simulated crash", val: Iface{T: types.Typ[types.String], V: in.ts.Str("vf-crash")}, stack: what})
+	}
+}
+
+func (in *Interp) fileByName(name string) *fileObj {
+	key := "file:" + name
+	if f, ok := in.hooks[key].(*fileObj); ok {
+		return f
+	}
+	f := &fileObj{name: name}
+	in.hooks[key] = f
+	return f
+}
+
+func handleOf(in *Interp, v Value) *fileHandle {
+	p, ok := v.(Ptr)
+	if !ok || p == nil {
+		in.rtPanic("nil *os.File")
+	}
+	op, ok := (*p).(*Opaque)
+	if !ok || op.Kind != "os.File" {
+		panic(unsupported("operation on a non-modelled *os.File"))
+	}
+	h, ok := op.Data.(*fileHandle)
+	if !ok {
+		panic(unsupported("operation on std stream"))
+	}
+	return h
+}
+
+func (in *Interp) lineLen(s SliceV) *Term {
+	return in.ts.SBv2Int(in.lenTerm(s))
+}
+
+func registerIO(P *Program) {
+	r := P.reg
+	r("os.OpenFile", func(in *Interp, caller *frame, fn *ssa.Function, args []Value) Value {
+		name := mustStr(args[0], "os.OpenFile")
+		var cell Value = &Opaque{Kind: "os.File", Data: &fileHandle{f: in.fileByName(name)}}
+		return Tuple{Ptr(&cell), Iface{}}
+	})
+	r("(*os.File).Seek", func(in *Interp, caller *frame, fn *ssa.Function, args []Value) Value {
+		h := handleOf(in, args[0])
+		off, ok := cint(args[1])
+		wh, ok2 := cint(args[2])
+		if !ok || !ok2 || off != 0 || wh != 0 {
+			panic(unsupported("os.File.Seek other than (0,0)"))
+		}
+		h.pos = 0
+		return Tuple{in.ts.BV(64, 0), Iface{}}
+	})
+	r("(*os.File).Close", func(in *Interp, caller *frame, fn *ssa.Function, args []Value) Value {
+		handleOf(in, args[0]).closed = true
+		return Iface{}
+	})
+	r("os.Remove", func(in *Interp, caller *frame, fn *ssa.Function, args []Value) Value {
+		delete(in.hooks, "file:"+mustStr(args[0], "os.Remove"))
+		return Iface{}
+	})
+	r("os.TempDir", func(in *Interp, caller *frame, fn *ssa.Function, args []Value) Value { return in.ts.Str("/tmp") })
+	r("os.RemoveAll", func(in *Interp, caller *frame, fn *ssa.Function, args []Value) Value { return Iface{} })
+	fprint := func(ln bool) IntrinsicHandler {
+		return func(in *Interp, caller *frame, fn *ssa.Function, args []Value) Value {
+			w := args[0].(Iface)
+			var s *Term
+			if fn.Name() == "Fprintf" {
+				s = in.sprintf(args[1].(*Term), variadic(args[2]))
+			} else {
+				s = in.sprint(variadic(args[1]), ln)
+			}
+			if w.T == nil {
+				in.rtPanic("nil io.Writer")
+			}
+			p, ok := w.V.(Ptr)
+			if ok && p != nil {
+				if op, ok := (*p).(*Opaque); ok && op.Kind == "os.File" {
+					if h, ok := op.Data.(*fileHandle); ok {
+						// one atomic append of one line (the text itself must not contain a newline: JSON text never does)
+						var content SliceV
+						if ln && s.op == OSConcat && len(s.args) >= 2 {
+							body := in.ts.SConcat(s.args[:len(s.args)-1]...)
+							last := s.args[len(s.args)-1]
+							if last.IsConst() && last.s == "\n" {
+								content = in.strToBytes(body)
+							} else if last.IsConst() && len(last.s) > 0 && last.s[len(last.s)-1] == '\n' {
+								content = in.strToBytes(in.ts.SConcat(body, in.ts.Str(last.s[:len(last.s)-1])))
+							}
+						} else if ln && s.IsConst() && len(s.s) > 0 && s.s[len(s.s)-1] == '\n' {
+							content = in.strToBytes(in.ts.Str(s.s[:len(s.s)-1]))
+						}
+						if content.A == nil && content.Blob == nil {
+							if s.IsConst() && s.s == "\n" {
+								content = SliceV{A: []Value{}}
+							} else {
+								panic(unsupported("write to file that is not a single line"))
+							}
+						}
+						in.effect("file append " + h.f.name)
+						h.f.lines = append(h.f.lines, &fileLine{content: content, length: in.lineLen(content)})
+						return Tuple{in.ts.BvAdd(in.lenTerm(content), in.ts.BV(64, 1)), Iface{}}
+					}
+				}
+			}
+			// anything else (stdout, buffers we do not track): printing is a no-op
+			return Tuple{in.ts.BV(64, 0), Iface{}}
+		}
+	}
+	r("fmt.Fprintln", fprint(true))
+	r("fmt.Fprint", fprint(false))
+	r("fmt.Fprintf", fprint(false))
+
+	// bufio.Scanner over a modelled file
+	r("bufio.NewScanner", func(in *Interp, caller *frame, fn *ssa.Function, args []Value) Value {
+		rd := args[0].(Iface)
+		h := handleOf(in, rd.V)
+		var cell Value = &Opaque{Kind: "bufio.Scanner", Data: &scannerObj{h: h, maxTok: bufioMaxScanTokenSize}}
+		return Ptr(&cell)
+	})
+	scOf := func(in *Interp, v Value) *scannerObj {
+		p := v.(Ptr)
+		return (*p).(*Opaque).Data.(*scannerObj)
+	}
+	r("(*bufio.Scanner).Buffer", func(in *Interp, caller *frame, fn *ssa.Function, args []Value) Value {
+		m, ok := cint(args[2])
+		if !ok {
+			panic(unsupported("Scanner.Buffer symbolic max"))
+		}
+		scOf(in, args[0]).maxTok = m
+		return nil
+	})
+	r("(*bufio.Scanner).Scan", func(in *Interp, caller *frame, fn *ssa.Function, args []Value) Value {
+		sc := scOf(in, args[0])
+		if sc.done {
+			return in.ts.False()
+		}
+		h := sc.h
+		if h.pos >= len(h.f.lines) {
+			sc.done = true
+			sc.cur = nil
+			return in.ts.False()
+		}
+		ln := h.f.lines[h.pos]
+		// the line and its newline must fit the maximum token size
+		fits := in.ts.ILt(ln.length, in.ts.Int(sc.maxTok))
+		if in.branch(nil, nil, fits) {
+			h.pos++
+			sc.cur = ln
+			return in.ts.True()
+		}
+		sc.done = true
+		sc.cur = nil
+		sc.err = in.newError(in.ts.Str("bufio.Scanner: token too long"))
+		return in.ts.False()
+	})
+	r("(*bufio.Scanner).Bytes", func(in *Interp, caller *frame, fn *ssa.Function, args []Value) Value {
+		sc := scOf(in, args[0])
+		if sc.cur == nil {
+			return SliceV{}
+		}
+		return sc.cur.content
+	})
+	r("(*bufio.Scanner).Text", func(in *Interp, caller *frame, fn *ssa.Function, args []Value) Value {
+		sc := scOf(in, args[0])
+		if sc.cur == nil {
+			return in.ts.Str("")
+		}
+		return in.sliceStr(sc.cur.content)
+	})
+	r("(*bufio.Scanner).Err", func(in *Interp, caller *frame, fn *ssa.Function, args []Value) Value {
+		sc := scOf(in, args[0])
+		if sc.err == nil {
+			return Iface{}
+		}
+		return sc.err
+	})
+
+	// fslock
+	r("github.com/juju/fslock.New", func(in *Interp, caller *frame, fn *ssa.Function, args []Value) Value {
+		var cell Value = &Opaque{Kind: "fslock", Data: mustStr(args[0], "fslock.New")}
+		return Ptr(&cell)
+	})
+	lockOf := func(in *Interp, v Value) string {
+		p := v.(Ptr)
+		if p == nil {
+			in.rtPanic("nil *fslock.Lock")
+		}
+		return (*p).(*Opaque).Data.(string)
+	}
+	r("(*github.com/juju/fslock.Lock).Lock", func(in *Interp, caller *frame, fn *ssa.Function, args []Value) Value {
+		in.lockAcquire("fslock:" + lockOf(in, args[0]))
+		return Iface{}
+	})
+	r("(*github.com/juju/fslock.Lock).Unlock", func(in *Interp, caller *frame, fn *ssa.Function, args []Value) Value {
+		in.lockRelease("fslock:" + lockOf(in, args[0]))
+		return Iface{}
+	})
+
+	// LevelDB
+	const ldb = "github.com/syndtr/goleveldb/leveldb"
+	dbOf := func(in *Interp, v Value) *dbObj {
+		p, ok := v.(Ptr)
+		if !ok || p == nil {
+			in.rtPanic("nil *leveldb.DB")
+		}
+		return (*p).(*Opaque).Data.(*dbObj)
+	}
+	notFound := func(in *Interp) Value {
+		pk := in.P.byPath[ldb]
+		if pk != nil {
+			if g, ok := pk.Members["ErrNotFound"].(*ssa.Global); ok {
+				return *in.global(g)
+			}
+		}
+		return in.newError(in.ts.Str("leveldb: not found"))
+	}
+	r(ldb+".OpenFile", func(in *Interp, caller *frame, fn *ssa.Function, args []Value) Value {
+		path := args[0].(*Term)
+		key := "leveldb:" + in.ts.Print(path)
+		db, ok := in.hooks[key].(*dbObj)
+		if !ok {
+			db = &dbObj{path: key, m: NewMap()}
+			in.hooks[key] = db
+		}
+		var cell Value = &Opaque{Kind: "leveldb.DB", Data: db}
+		return Tuple{Ptr(&cell), Iface{}}
+	})
+	strT := types.Typ[types.String]
+	r("(*"+ldb+".DB).Get", func(in *Interp, caller *frame, fn *ssa.Function, args []Value) Value {
+		db := dbOf(in, args[0])
+		in.yield("db.Get", db)
+		k := in.sliceStr(args[1].(SliceV))
+		e := in.mapFind(db.m, strT, k)
+		if e == nil {
+			return Tuple{SliceV{}, notFound(in)}
+		}
+		return Tuple{e.V, Iface{}}
+	})
+	r("(*"+ldb+".DB).Has", func(in *Interp, caller *frame, fn *ssa.Function, args []Value) Value {
+		db := dbOf(in, args[0])
+		k := in.sliceStr(args[1].(SliceV))
+		return Tuple{in.ts.Bool(in.mapFind(db.m, strT, k) != nil), Iface{}}
+	})
+	r("(*"+ldb+".DB).Put", func(in *Interp, caller *frame, fn *ssa.Function, args []Value) Value {
+		db := dbOf(in, args[0])
+		in.yield("db.Put", db)
+		k := in.sliceStr(args[1].(SliceV))
+		v := args[2].(SliceV)
+		if v.Blob == nil {
+			v = SliceV{A: append([]Value{}, v.A...)}
+		}
+		in.mapSet(db.m, strT, k, v)
+		in.effect(fmt.Sprintf("db.Put %s", in.show(k)))
+		return Iface{}
+	})
+	r("(*"+ldb+".DB).Delete", func(in *Interp, caller *frame, fn *ssa.Function, args []Value) Value {
+		db := dbOf(in, args[0])
+		in.yield("db.Delete", db)
+		k := in.sliceStr(args[1].(SliceV))
+		in.mapDelete(db.m, strT, k)
+		in.effect("db.Delete")
+		return Iface{}
+	})
+	r("(*"+ldb+".DB).Close", func(in *Interp, caller *frame, fn *ssa.Function, args []Value) Value { return Iface{} })
+}
+
+// locks (sequential execution: acquiring a held lock means deadlock => path stops)
+func (in *Interp) lockAcquire(name string) {
+	in.yield("lock "+name, nil)
+	held, _ := in.hooks["lock:"+name].(int)
+	if held != 0 && held != in.curThread()+1 {
+		in.blockOn(name)
+		return
+	}
+	in.hooks["lock:"+name] = in.curThread() + 1
+}
+
+func (in *Interp) lockRelease(name string) {
+	in.hooks["lock:"+name] = 0
+	in.yield("unlock "+name, nil)
+}
+
+func (in *Interp) curThread() int { return 0 }
+
+func (in *Interp) blockOn(name string) { panic(pathDone{"deadlock on " + name}) }
